@@ -201,6 +201,21 @@ def scripted_cases():
             ops += breaker + [["settle", SETTLE], ["peer_set_best", (main[:9] + [60, 61, 62] if breaker[0][0] == "peer_set_best" else main) ],
                               ["settle", SETTLE]]
             res.append({"cfg": {"parents": par, "start": 0, "m": 2000}, "ops": ops})
+    # a backlog (more blocks known than the request window: 10 requested, the rest queued) and exactly then the
+    # connection is lost / times out / the node restarts: after the reconnect nothing may be left queued that is
+    # never requested again
+    n = 30
+    par = [[i, i - 1] for i in range(1, n + 1)]
+    main = list(range(0, n + 1))
+    for nproc in (0, 3):
+        for breaker in ([["disconnect"]], [["advance", 700], ["timeouts"]], [["restartnode"]]):
+            for first in (6, 0):
+                ops = ([["peer_set_best", main[:first + 1]], ["settle", SETTLE]] if first else []) + \
+                      [["peer_set_best", main[:n - 2]], ["deliver", 0], ["answer", 0], ["deliver", 0], ["deliver", 0]]
+                for _ in range(nproc):
+                    ops += [["answer", 0], ["deliver", 0], ["process"]]
+                ops += breaker + [["settle", SETTLE], ["peer_set_best", main], ["settle", SETTLE]]
+                res.append({"cfg": {"parents": par, "start": 0, "m": 2000}, "ops": ops})
     return res
 
 
